@@ -20,6 +20,7 @@ replay = common.generic_replay
 
 SPECS_QUICK = ['', 'a', 'A', 'm', 'h', '!s', 'r', 'aAmh', 'A!s', 'ar', 'mh!sr', '!b', '!z', '!x', 'Ar']
 FLAGS = ['a', 'A', 'm', 'h', '!s', 'r', '!b', '!z', '!x']
+WRITTEN_TEXTS = []
 
 
 def all_specs():
@@ -108,9 +109,45 @@ def observe(m, spec, seed):
     return {'strings': list(strings), 'order': list(order), 'text': text, 'w': w, 'joined': joined, 'order2': list(order2)}
 
 
-def case_term(mname, tname, spec, ob):
-    tbm = {n: i for i, n in enumerate(ob['order'])}
-    return (f'smiles_case {mname} {zmap_term(ob["w"])} {zmap_term(tbm)} (opts_of_spec {cs(spec)}) {tname} '
+
+
+COQ_EXTRA = r'''From Gen Require Import Elements SmilesTables.
+Import ListNotations.
+Open Scope Z_scope.
+Definition wfun (w : list (Z * Z)) : Z -> Z := fun n => match zget w n with Some x => x | None => 0 end.
+Definition tbfun (order : list Z) : Z -> Z := fun n => match index_of order n with Some i => i | None => 0 end.
+(* one run of the writer model: the Python list `string`, `order`, and the text of format()/str() *)
+Definition wcase (g : mol) (w : list (Z * Z)) (spec : string) (tabs : stabs)
+                 (strings : list string) (order : list Z) (text : string) : bool :=
+  let o := opts_of_spec spec in
+  match smiles_tokens g (wfun w) (tbfun order) o tabs with
+  | Ok (Some (out, ord)) =>
+      string_list_eqb (map spell_otok out) strings && zlist_eqb ord order &&
+      String.eqb (match (if o_cx o then format_cxsmiles g ord else None) with
+                  | Some cx => scat [spell out; " "%string; cx]
+                  | None => spell out
+                  end) text
+  | _ => false
+  end.
+(* the same through Writer.smiles_text / smiles_strings (the definitions the theorems speak about) *)
+Definition wcase_full (g : mol) (w : list (Z * Z)) (spec : string) (tabs : stabs)
+                 (strings : list string) (order : list Z) (text : string) : bool :=
+  let o := opts_of_spec spec in
+  match smiles_strings g (wfun w) (tbfun order) o tabs, smiles_text g (wfun w) (tbfun order) o tabs with
+  | Ok (ss, ord), Ok (txt, ord') =>
+      string_list_eqb ss strings && zlist_eqb ord order && zlist_eqb ord' order && String.eqb txt text
+  | _, _ => false
+  end.
+Definition wcase_err (g : mol) (spec : string) (e : pyexn) : bool :=
+  match smiles_text g (fun _ => 0) (fun _ => 0) (opts_of_spec spec) no_stabs with Err e' => pyexn_eqb e e' | Ok _ => false end.
+Definition tkcase (s : string) (r : pyres (list rtok)) : bool := pyres_eqb (list_eqb rtok_eqb) (tokenize s) r.
+Definition apcase (s : string) (r : pyres parsed) : bool := pyres_eqb parsed_eqb (atom_parse s) r.
+Definition P := mkParsed.
+'''
+
+
+def case_term(mname, wname, tname, spec, ob, full=False):
+    return (f'{"wcase_full" if full else "wcase"} {mname} {wname} {cs(spec)} {tname} '
             f'{lst(ob["strings"], cs)} {lst(ob["order"], zraw)} {cs(ob["text"])}')
 
 
@@ -119,7 +156,7 @@ def run_shards(name, shards, timeout=900):
     def one(k):
         defs, cases = shards[k]
         body = ';\n'.join(f'({i}%nat, {c})' for i, c in enumerate(cases))
-        text = coqcases.HEADER.format(imports='Graph Writer', extra='Import ListNotations.\nOpen Scope Z_scope.\n' + defs, body=body)
+        text = coqcases.HEADER.format(imports='Graph PeriodicTable Stereo Writer', extra=COQ_EXTRA + defs, body=body)
         ok, out = common.coq_eval(f'{name}_{k}', text, timeout)
         if not ok:
             return k, None, out
@@ -131,7 +168,7 @@ def run_shards(name, shards, timeout=900):
         idx = [int(x.replace('%nat', '').strip()) for x in bd.split(';') if x.strip()] if bd != 'nil' else []
         return k, idx, out
     failing, logs, ok_all = [], [], True
-    with cf.ThreadPoolExecutor(max_workers=8) as ex:
+    with cf.ThreadPoolExecutor(max_workers=4) as ex:
         for k, idx, out in ex.map(one, range(len(shards))):
             if idx is None:
                 ok_all = False
@@ -139,3 +176,870 @@ def run_shards(name, shards, timeout=900):
             else:
                 failing.extend((k, i) for i in idx)
     return ok_all, failing, '\n'.join(logs)
+
+
+# ---------------------------------------------------------------------------------------------------------
+# molecules
+
+SPECIAL = [
+    # plain / branches / rings / many closures
+    'C', 'CC', 'CCO', 'CC(C)C', 'CC(C)(C)C', 'C1CC1', 'C1CC1C', 'C12C3C4C1C5C2C3C45', 'C1CC2CCC1CC2', 'C1CCC2(CC1)CCCC2',
+    'C1CC2C3CCC(C3)C2C1', 'c1ccc2c(c1)ccc1ccccc12', 'C1=CC2=CC=CC2=C1',
+    # brackets: isotopes, charges, radicals, H counts, elemental / special atoms
+    '[13CH4]', '[2H]O[2H]', '[H][H]', '[H+]', '[NH4+]', '[O-]C(=O)c1ccccc1', 'C[N+](C)(C)C', '[Fe+2]', '[Fe+3].[Cl-].[Cl-].[Cl-]',
+    '[O-2].[Mg+2]', '[C-]#[O+]', '[CH3]', '[CH2]C', 'C[CH]C', '[O]O', '[OH]', 'C[N]C', '[C]', '[P]', '[S]', '[B]', '[PH3]', 'P',
+    '[PH]=C', 'CP(C)C', 'CP(=O)(O)O', 'OP(O)O', '[PH2]C', 'C[PH]C', '[SiH4]', '[Na]', '[Cl]', 'Cl', 'Br', 'BrCCCl', 'B(O)O',
+    '[BH4-]', 'CB(C)C', '[235U]', '[U+4]', '[18F]CC', '[15NH3]', '[14C]#[14C]', 'C[Se]C', '[SeH]C', '[AsH3]', 'C[As](C)C',
+    # special (coordinate) bonds
+    '[C]~[Fe]', 'C~[Fe]', 'N~[Pt](~N)(Cl)Cl', '[Fe]~1~C~C~1',
+    # aromatic: pyrrole-type N, B, P, heteroatoms, charged, fused
+    'c1cc[nH]c1', 'c1ccncc1', 'c1ccoc1', 'c1ccsc1', 'c1cc[se]c1', 'c1cc[pH]c1', 'c1ccpcc1', 'c1cc[bH]c1', 'c1cc[n+](C)cc1',
+    'c1cc[o+]cc1', 'c1ccc2[nH]ccc2c1', 'Cn1cccc1', 'c1ccc(cc1)-c1ccccc1', 'c1cnc2[nH]cnc2c1', 'O=c1cc[nH]cc1', 'c1ccc2ncccc2c1',
+    '[cH-]1cccc1', 'c1cc[te]c1', 'c1ccc[as]c1',
+    # multi-component
+    'C1CC1.[Na+].[Cl-]', 'CC.CC.O', 'c1ccccc1.C1CC1.O', '[Na+].[Na+].[O-]S([O-])(=O)=O', 'C.C.C.C', '[CH3].[CH3]',
+    # tetrahedral stereo
+    'C[C@H](N)C(=O)O', 'C[C@@H](N)C(=O)O', '[C@H](F)(Cl)Br', '[C@](F)(Cl)(Br)I', '[C@]([H])(F)(Cl)Br', 'F[C@](Cl)(Br)[H]',
+    'N[C@@H](C)C(=O)O', 'C[C@@H]1CC[C@H](C)CC1', 'C[C@H]1CCCO1', 'C[C@]12CC[C@H](C1)C2(C)C', 'C1C[C@H]1C', 'N1[C@H](C)CC1',
+    '[C@@]1(F)(Cl)CCO1', 'OC[C@H]1O[C@@H](O)[C@H](O)[C@@H](O)[C@@H]1O', 'O[C@]12CCC[C@@]1(N)CC2', 'C1CC[C@]12CCCO2',
+    'C[S@](=O)CC', 'C[S@@](=O)c1ccccc1', 'C[P@](=O)(O)Cl', 'C[N@+](CC)(CCC)CCCC', 'C[Si@](F)(Cl)Br', '[C@H](C)(N)O',
+    '[C@@H]1(C)CCCO1', 'C[C@H](O)[C@@H](N)C', 'C[C@H](O)[C@H](O)C', 'C[C@H]([CH2])O',
+    # allenes / cumulenes
+    'CC=[C@]=CC', 'CC=[C@@]=CC', 'FC(Cl)=[C@]=C(Br)I', 'FC=[C@@]=CCl', 'FC([H])=[C@]=C([H])Cl', 'C/C=C=C=C/C', 'C/C=C=C=C\\C',
+    'F/C=C=C=C/Cl', 'CC=[C@]=C1CCC(C)CC1',
+    # cis / trans: chains, conjugated, rings, closures carrying the mark, explicit H
+    'F/C=C/Cl', 'F/C=C\\Cl', 'C(/F)(\\Cl)=C(/Br)I', 'F/C(Cl)=C(Br)/I', 'F/C=C/C=C/Cl', 'F/C=C/C=C\\Cl', 'F/C=C\\C=C/C=C\\Cl',
+    'F/C([H])=C([H])/Cl', 'C(\\F)([H])=C/Cl', 'C/C=C/C', 'C/C=C\\C', 'C/C=C/CC/C=C\\C', 'C/C=C(/C)CC', 'C\\C(CC)=C(/C)CCC',
+    'C1CCCCCC/C=C/1', 'C1CCCCCC/C=C\\1', 'C/1=C/CCCCCCCCCC1', 'C1CCCCCCCCC/C=C/1', 'F/C=C/1CCC(C)CC1', 'C/C=C1/CC[C@H](C)CC1',
+    'O=C(/C=C/c1ccccc1)O', 'C/N=C/C', 'C/N=N/C', 'C/C=N/O', 'C/C(N)=N\\O', 'CC/C=C(\\C)C(=O)O', 'c1ccccc1/C=C/c1ccccc1',
+    'C/C=C/[C@H](N)O', 'C/C=C\\[C@@H](C)/C=C/C', 'C(=C/C)/C=C/C', 'C/C=C/C(/C=C/C)=C/C',
+    # radicals with stereo, charges on stereo atoms
+    'C[C@H]([O])N', 'C[C@H]([NH3+])C([O-])=O', '[O-][N+](=O)/C=C/C',
+    # valence errors are kept (implicit_hydrogens None)
+    'C[N](C)(C)C', 'CC(C)(C)(C)C', 'FCl(F)F',
+]
+
+
+def special_molecules():
+    from chython import smiles
+    out = []
+    for smi in SPECIAL:
+        try:
+            m = smiles(smi)
+        except Exception:
+            continue
+        out.append((smi, m))
+    return out
+
+
+def api_molecules():
+    """molecules that cannot be spelled as SMILES are built through the editing API"""
+    from chython import MoleculeContainer
+    out = []
+    m = MoleculeContainer()
+    for num, sym in ((7, 'C'), (3, 'O'), (12, 'N'), (40, 'C')):
+        m.add_atom(sym, num)
+    m.add_bond(7, 3, 2)
+    m.add_bond(7, 12, 1)
+    m.add_bond(12, 40, 1)
+    out.append(('api:sparse-numbers', m))
+    m = MoleculeContainer()
+    for k in range(1, 8):
+        m.add_atom('C', 10 * k)
+    for k in range(1, 7):
+        m.add_bond(10 * k, 10 * k + 10, 1)
+    m.add_bond(10, 70, 1)
+    m.add_bond(20, 50, 1)
+    out.append(('api:bicycle-reverse-insertion', m))
+    return out
+
+
+def pool(ck):
+    """(name, molecule) pairs of the correspondence and of the search: special cases, corpus sample, stereo corpus sample,
+    random renumberings of part of them (other atom numbers, other dict insertion order)"""
+    from chython import smiles
+    rng = random.Random(f'{ck.seed}:c02pool')
+    quick = ck.tier == 'quick'
+    mols = special_molecules() + api_molecules()
+    for salt, src, k in (('lipo', corpus.lipo(), 110 if quick else 1200), ('stereo', corpus.stereo_smiles(), 60 if quick else 600)):
+        for smi in corpus.sample(src, k, ck.seed, 'c02' + salt):
+            try:
+                m = smiles(smi)
+            except Exception:
+                continue
+            if m is None or not len(m):
+                continue
+            mols.append((smi, m))
+    ren = []
+    for name, m in mols:
+        if rng.random() < (0.35 if quick else 0.6) and len(m) > 1:
+            try:
+                ren.append((name + '#renumbered', corpus.renumber(m, rng)))
+            except Exception:
+                pass
+    return mols + ren
+
+
+def mol_features(m):
+    f = []
+    if any(a.stereo is not None for _, a in m.atoms()):
+        f.append('atom-stereo')
+    if any(bd.stereo is not None for *_, bd in m.bonds()):
+        f.append('ct-stereo')
+    if m.connected_components_count > 1:
+        f.append('multi')
+    if m.is_radical:
+        f.append('radical')
+    if any(a.charge for _, a in m.atoms()):
+        f.append('charged')
+    if any(a.isotope for _, a in m.atoms()):
+        f.append('isotope')
+    if any(int(bd) == 4 for *_, bd in m.bonds()):
+        f.append('aromatic')
+    if any(int(bd) == 8 for *_, bd in m.bonds()):
+        f.append('special-bond')
+    if m.rings_count:
+        f.append('ring')
+    return f
+
+
+# ---------------------------------------------------------------------------------------------------------
+# correspondence 1: the writer
+
+def corr_writer(ck, mols):
+    """real _smiles / format / str / smiles_atoms_order against Writer.smiles_tokens with the real weights and the observed
+    order as tie-break. returns (ok, failing [(name, molecule, spec)])"""
+    from chython import MoleculeContainer
+    rng = random.Random(f'{ck.seed}:c02corr')
+    quick = ck.tier == 'quick'
+    specs_all = SPECS_QUICK if quick else all_specs()
+    shards, metas = [], []
+    defs, cases, meta, size = [], [], [], 0
+    api_ok = True
+    n_cases = 0
+
+    def close():
+        nonlocal defs, cases, meta, size
+        if cases:
+            shards.append(('\n'.join(defs), cases))
+            metas.append(meta)
+        defs, cases, meta, size = [], [], [], 0
+
+    for i, (name, m) in enumerate(mols):
+        try:
+            mt = mol_term(m)
+            tt = tabs_term(m)
+        except Exception as e:
+            ck.unchecked('correspondence Writer: molecule cannot be printed', f'{name}: {type(e).__name__}: {e}')
+            continue
+        md = [f'Definition m{i} : mol := {mt}.', f'Definition t{i} : stabs := {tt}.']
+        wdone = {}
+        # every molecule: canonical + 3 rotating specs; every 6th molecule and the special ones: all specs
+        if name in SPECIAL_SET or i % 6 == 0:
+            specs = list(specs_all)
+        else:
+            specs = [''] + rng.sample(specs_all[1:], 3)
+        local = []
+        for j, spec in enumerate(specs):
+            try:
+                ob = observe(m, spec, f'{ck.seed}:{i}:{j}')
+            except Exception as e:
+                ck.unchecked('correspondence Writer: the real writer raised', f'{name} spec={spec!r}: {type(e).__name__}: {e}', [name])
+                continue
+            if ''.join(ob['strings']) != ob['joined'] or ob['order'] != ob['order2'] or not ob['text'].startswith(ob['joined']):
+                api_ok = False
+                ck.unchecked('entry points of the writer disagree (_smiles / __format__ / format / smiles_atoms_order)',
+                             f'{name} spec={spec!r}: {ob}', [name])
+            wkey = 'r' if 'r' in spec else ('n' if '!s' in spec else 's')
+            if wkey not in wdone:
+                wdone[wkey] = f'w{i}{wkey}'
+                md.append(f'Definition w{i}{wkey} : list (Z * Z) := {zmap_term(ob["w"])}.')
+            local.append(case_term(f'm{i}', wdone[wkey], f't{i}', spec, ob, full=(n_cases % 16 == 0)))
+            meta.append((name, m, spec, ob['text']))
+            WRITTEN_TEXTS.append(ob['text'])
+            n_cases += 1
+            feats = mol_features(m)
+            ck.case(('writer', name, spec, ob['text']), nontrivial=len(m) > 2)
+            ck.count('writer:spec=' + (spec or 'canonical'))
+            for f in feats:
+                ck.count('writer:mol-' + f)
+            if len(set(ob['w'].values())) < len(ob['w']) and 'r' not in spec:
+                ck.count('writer:weight-ties')
+        defs.extend(md)
+        cases.extend(local)
+        size += sum(len(x) for x in md) + sum(len(x) for x in local)
+        if size > 120_000:
+            close()
+    close()
+    # the empty molecule: format() unpacks the bare [] returned by _smiles
+    em = MoleculeContainer()
+    for spec in ('', 'a', 'r'):
+        try:
+            format(em, spec) if spec else str(em)
+            got = None
+        except Exception as e:
+            got = type(e).__name__
+        exn = {'ValueError': 'ValueError', 'IndexError': 'IndexError', 'KeyError': 'KeyError', 'TypeError': 'TypeError'}.get(got)
+        if exn is None:
+            ck.unchecked('correspondence Writer: empty molecule', f'str/format of the empty molecule: {got}')
+        else:
+            shards.append(('', [f'wcase_err (mkMol [] []) {cs(spec)} {exn}']))
+            metas.append([('empty molecule', em, spec, got)])
+            ck.case(('writer-empty', spec), nontrivial=False)
+    ok, failing, log = run_shards('c02w', shards)
+    bad = [metas[k][i] for k, i in failing]
+    ck.extra['writer_correspondence_cases'] = sum(len(c) for _, c in shards)
+    ck.oblige('correspondence: Smiles._smiles / format(mol, spec) / str(mol) / smiles_atoms_order == Writer.smiles_tokens '
+              '(real weights, observed order as tie-break)', ok and not bad and api_ok, 'correspondence',
+              log or '; '.join(f'{n} spec={s!r} text={t!r}' for n, _, s, t in bad[:8]))
+    if shards:
+        ck.sample({'writer_case': shards[0][1][0][:600]})
+    if not ok:
+        ck.unchecked('correspondence Writer model vs chython/algorithms/smiles.py: cases did not evaluate', log[-1500:])
+    elif bad:
+        ck.unchecked('correspondence Writer model vs chython/algorithms/smiles.py', f'{len(bad)} disagreeing cases',
+                     [f'{n} spec={s!r} text={t!r}' for n, _, s, t in bad[:20]])
+    return ok and not bad and api_ok, bad
+
+
+# ---------------------------------------------------------------------------------------------------------
+# correspondence 2: tokenizer and bracket-atom matcher (the reader side Writer.v carries)
+
+TK_EXN = {'IncorrectSmiles': 'IncorrectSmiles', 'IncorrectSmarts': 'IncorrectSmarts', 'KeyError': 'KeyError', 'IndexError': 'IndexError',
+          'ValueError': 'ValueError', 'TypeError': 'TypeError'}
+
+
+def rtok_term(t):
+    ty, v = t
+    if ty == 0:
+        return f'RAtom {cs(v)}'
+    if ty == 1:
+        return f'RBond {zraw(v)}'
+    if ty == 2:
+        return 'ROpen'
+    if ty == 3:
+        return 'RClose'
+    if ty == 4:
+        return 'RDot'
+    if ty == 5:
+        return f'RBracket {cs(v)}'
+    if ty == 6:
+        return f'RClosure {zraw(v)}'
+    if ty == 8:
+        return f'RArom {cs(v)}'
+    if ty == 9:
+        return f'RUpDown {b(v)}'
+    raise ValueError(t)
+
+
+def tk_expected(text):
+    from chython.files.daylight.tokenize import _tokenize
+    try:
+        toks = _tokenize(text)
+    except Exception as e:
+        return 'Err ' + TK_EXN.get(type(e).__name__, 'OtherError')
+    return 'Ok ' + lst([rtok_term(t) for t in toks])
+
+
+def ap_expected(text):
+    from chython.files.daylight.tokenize import _atom_parse
+    try:
+        ty, d = _atom_parse(text)
+    except Exception as e:
+        return 'Err ' + TK_EXN.get(type(e).__name__, 'OtherError')
+    return (f'Ok (P {zraw(ty)} {cs(d["element"])} {opt(d["isotope"], zraw)} {opt(d["parsed_mapping"], zraw)} {zraw(d["charge"])} '
+            f'{zraw(d["implicit_hydrogens"])} {opt(d["stereo"], b)})')
+
+
+TK_ALPHABET = 'CBlrNOFIScnos[]()%0129.=#:-~/\\@H+'
+
+
+def corr_reader(ck, texts):
+    """_tokenize and _atom_parse against Writer.tokenize / Writer.atom_parse: every text the writer produced in the writer
+    correspondence, all strings over the SMILES alphabet up to length 3 (quick) / 4, corruptions, bracket bodies"""
+    rng = random.Random(f'{ck.seed}:c02tk')
+    quick = ck.tier == 'quick'
+    tk_inputs = []
+    seen = set()
+
+    def add(s):
+        if s not in seen and all(32 <= ord(c) < 127 for c in s) and not any(c in s for c in ';,!'):
+            seen.add(s)
+            tk_inputs.append(s)
+    for t in texts:
+        add(t.split(' ')[0])
+    n_written = len(tk_inputs)
+    for L in range(0, 3 if quick else 4):
+        for tup_ in itertools.product(TK_ALPHABET, repeat=L):
+            add(''.join(tup_))
+    base = [t.split(' ')[0] for t in texts[:400]] or ['CCO']
+    for _ in range(600 if quick else 6000):
+        s = rng.choice(base)
+        if not s:
+            continue
+        k = rng.randrange(len(s))
+        op = rng.random()
+        if op < 0.35:
+            s = s[:k] + s[k + 1:]
+        elif op < 0.7:
+            s = s[:k] + rng.choice(TK_ALPHABET + 'lr345678') + s[k:]
+        else:
+            s = s[:k] + rng.choice(TK_ALPHABET) + s[k + 1:]
+        add(s)
+    for s in ('C%10CC%10', 'C%1', 'C%', 'C%0', 'C%012', 'C1%102C1%10', 'C%99C%99', 'Cl1Br1', 'BrB', 'Bl', 'Cr', 'CCl', 'CBr', 'C[', 'C]', '[[C]]',
+              '[]', '[C', 'C((C))', 'C()', 'C(1)', 'C(%10)', 'C0', '(C)', 'C.(C)', 'c1ccccc1', '[nH]1cccc1', 'C/C=C\\C', 'C~C', 'C:C', 'C%', '%1C',
+              'C%1%', 'C%1(', 'C%1[C]', 'C%[C]', 'Cb', 'Bc', 'Clr', 'Brl', 'CB', 'BC', 'Cll', 'C l'):
+        add(s)
+    cases = [f'tkcase {cs(s)} ({tk_expected(s)})' for s in tk_inputs]
+    for s in tk_inputs:
+        ck.case(('tk', s), nontrivial=len(s) > 0)
+    ck.count('tokenize:written-texts', n_written)
+    ck.count('tokenize:other-strings', len(tk_inputs) - n_written)
+    # bracket bodies
+    ap_inputs = []
+    seen2 = set()
+
+    def add2(s):
+        if s not in seen2 and all(32 <= ord(c) < 127 for c in s):
+            seen2.add(s)
+            ap_inputs.append(s)
+    for t in texts:
+        for body in re.findall(r'\[([^\]]*)\]', t):
+            add2(body)
+    n_body = len(ap_inputs)
+    from chython.periodictable import Element
+    syms = sorted({c.__name__ for c in Element.__subclasses__() if c.__name__[0].isupper() and len(c.__name__) <= 2})
+    for sym in syms:
+        add2(sym)
+        add2(sym.lower())
+        add2(f'{rng.randint(1, 999)}{sym}@@H{rng.randint(1, 4)}{rng.choice(["+", "-", "+2", "-3", "+4", "--", "+++"])}:{rng.randint(0, 9999)}')
+    for iso in ('', '1', '13', '999', '1000', '0', '01', '100'):
+        for sym in ('C', 'c', 'Cl', 'se', 'Se', 'si', 'te', 'as', 'b', 'X', 'J', 'Q', 'Uuo', 'Zz', 'n'):
+            for st in ('', '@', '@@', '@@@'):
+                for h in ('', 'H', 'H0', 'H1', 'H4', 'H5', 'H12', 'HH'):
+                    for chg in ('', '+', '-', '+2', '-4', '+5', '++', '+-', '--', '+++', '-1', '+1+'):
+                        if rng.random() < (0.03 if quick else 0.3):
+                            for mp in ('', ':1', ':0', ':9999', ':10000', ':', ':a', ':12x'):
+                                add2(iso + sym + st + h + chg + mp)
+    for _ in range(400 if quick else 4000):
+        add2(''.join(rng.choice('019CclNnSsei@H+-:234 ') for _ in range(rng.randint(0, 6))))
+    ap_cases = [f'apcase {cs(s)} ({ap_expected(s)})' for s in ap_inputs]
+    for s in ap_inputs:
+        ck.case(('ap', s), nontrivial=ap_expected(s).startswith('Ok'))
+    ck.count('atom_parse:bodies-written', n_body)
+    ck.count('atom_parse:other-bodies', len(ap_inputs) - n_body)
+    allc = cases + ap_cases
+    ok, failing, log = coqcases.run_cases('c02r', 'Graph PeriodicTable Stereo Writer', allc, extra=COQ_EXTRA, shard=2500)
+    inputs = tk_inputs + ap_inputs
+    bad = [(('tokenize' if i < len(cases) else 'atom_parse'), inputs[i]) for i in failing]
+    ck.extra['reader_correspondence_cases'] = len(allc)
+    ck.oblige('correspondence: _tokenize (SMILES alphabet) and _atom_parse == Writer.tokenize / Writer.atom_parse', ok and not bad,
+              'correspondence', log or repr(bad[:10]))
+    ck.sample({'reader_case': allc[n_written // 2] if allc else ''})
+    if not ok:
+        ck.unchecked('correspondence Writer.tokenize / atom_parse: cases did not evaluate', log[-1500:])
+    elif bad:
+        ck.unchecked('correspondence Writer.tokenize / atom_parse vs chython/files/daylight/tokenize.py', f'{len(bad)} disagreeing inputs',
+                     [repr(x) for x in bad[:20]])
+    return ok and not bad, bad
+
+
+SPECIAL_SET = set(SPECIAL)
+
+# ---------------------------------------------------------------------------------------------------------
+# search: property-level oracles on the real code (no model involved)
+
+AROMATIC_READABLE = {'B', 'C', 'N', 'O', 'P', 'S', 'As', 'Se', 'Te'}
+
+
+def atom_sig(a):
+    return (a.atomic_number, a.isotope, a.charge, a.is_radical, a.implicit_hydrogens)
+
+
+def stereo_signs(m, f):
+    """the stereo configuration of m, expressed on neighbour lists renamed by f (a dict or None = identity); hashable set.
+    Uses only the stored labels and the sign-translation functions, never the canonical order."""
+    g = (lambda x: x) if f is None else f.__getitem__
+    out = set()
+    for n, a in m._atoms.items():
+        if a.stereo is None:
+            continue
+        if n in m.stereogenic_allenes:
+            env = m.stereogenic_allenes[n]
+            nn, nm = env[0], env[1]
+            out.add(('al', g(n), g(nn), g(nm), m._translate_allene_sign(n, nn, nm)))
+        elif n in m.stereogenic_tetrahedrons:
+            env = list(m.stereogenic_tetrahedrons[n])
+            out.add(('th', g(n), tuple(g(x) for x in env), m._translate_tetrahedron_sign(n, env)))
+        else:
+            out.add(('label-without-registry', g(n)))
+    for (n, k), env in m.stereogenic_cis_trans.items():
+        i, j = m._stereo_cis_trans_centers[n]
+        if m._bonds[i][j].stereo is None:
+            continue
+        nn, nm = env[0], env[1]
+        out.add(('ct', frozenset((g(n), g(k))), frozenset(((g(n), g(nn)), (g(k), g(nm)))), m._translate_cis_trans_sign(n, k, nn, nm)))
+    return out
+
+
+def stereo_in(m2, f, m):
+    """the configuration of m re-expressed through f inside m2: evaluates m2's labels on the images of m's reference neighbours"""
+    out = set()
+    for n, a in m._atoms.items():
+        if a.stereo is None:
+            continue
+        n2 = f[n]
+        try:
+            if n in m.stereogenic_allenes:
+                env = m.stereogenic_allenes[n]
+                out.add(('al', n2, f[env[0]], f[env[1]], m2._translate_allene_sign(n2, f[env[0]], f[env[1]])))
+            elif n in m.stereogenic_tetrahedrons:
+                env = [f[x] for x in m.stereogenic_tetrahedrons[n]]
+                out.add(('th', n2, tuple(env), m2._translate_tetrahedron_sign(n2, env)))
+            else:
+                out.add(('label-without-registry', n2))
+        except (KeyError, ValueError, IndexError):
+            out.add(('missing', n2))
+    for (n, k), env in m.stereogenic_cis_trans.items():
+        i, j = m._stereo_cis_trans_centers[n]
+        if m._bonds[i][j].stereo is None:
+            continue
+        nn, nm = env[0], env[1]
+        try:
+            s = m2._translate_cis_trans_sign(f[n], f[k], f[nn], f[nm])
+        except (KeyError, ValueError, IndexError):
+            s = 'missing'
+        out.add(('ct', frozenset((f[n], f[k])), frozenset(((f[n], f[nn]), (f[k], f[nm]))), s))
+    return out
+
+
+def n_labels(m):
+    return (sum(1 for _, a in m.atoms() if a.stereo is not None), sum(1 for *_, bd in m.bonds() if bd.stereo is not None))
+
+
+def compare_along(m, m2, f, stereo=True):
+    """differences between m and m2 under the atom correspondence f (dict: atom of m -> atom of m2); [] when none"""
+    diffs = []
+    if len(m2._atoms) != len(m._atoms) or len(set(f.values())) != len(f):
+        return [f'atom count {len(m._atoms)} -> {len(m2._atoms)}']
+    for n, a in m._atoms.items():
+        a2 = m2._atoms[f[n]]
+        if atom_sig(a) != atom_sig(a2):
+            diffs.append(f'atom {n}: (Z, isotope, charge, radical, H) {atom_sig(a)} -> {atom_sig(a2)}')
+    nb = 0
+    for n, k, bd in m.bonds():
+        nb += 1
+        bd2 = m2._bonds[f[n]].get(f[k])
+        if bd2 is None:
+            diffs.append(f'bond {n}-{k} order {int(bd)} missing after re-reading')
+        elif int(bd2) != int(bd):
+            diffs.append(f'bond {n}-{k}: order {int(bd)} -> {int(bd2)}')
+    nb2 = sum(1 for _ in m2.bonds())
+    if nb2 != nb:
+        diffs.append(f'bond count {nb} -> {nb2}')
+    if stereo and not diffs:
+        if n_labels(m) != n_labels(m2):
+            diffs.append(f'stereo labels (atoms, bonds) {n_labels(m)} -> {n_labels(m2)}')
+        else:
+            s1, s2 = stereo_signs(m, f), stereo_in(m2, f, m)
+            if s1 != s2:
+                diffs.append(f'stereo configuration differs: {sorted(map(repr, s1 ^ s2))[:4]}')
+    return diffs
+
+
+def written(m, spec, seed):
+    """(text of format(m, spec) / str(m), written atom order)"""
+    if 'r' in spec:
+        random.seed(seed)
+        text = format(m, spec)
+        random.seed(seed)
+        joined, order = m.__format__(spec, _return_order=True)
+    elif spec:
+        text = format(m, spec)
+        joined, order = m.__format__(spec, _return_order=True)
+    else:
+        text = str(m)
+        joined, order = text.split(' ')[0], list(m.smiles_atoms_order)
+    if not text.startswith(joined):
+        raise AssertionError(f'format() and __format__(_return_order=True) disagree: {text!r} / {joined!r}')
+    return text, list(order)
+
+
+def known_class(m, spec):
+    """stable keys of the recorded defect classes a molecule / style falls into"""
+    keys = []
+    if any(a.hybridization == 4 and a.atomic_symbol not in AROMATIC_READABLE for _, a in m.atoms()) and 'A' not in spec:
+        keys.append('aromatic-atom-of-element-without-lowercase-symbol')
+    if 'm' in spec and max(m._atoms) > 9999:
+        keys.append('atom-map-above-9999')
+    return keys
+
+
+def roundtrip(ck, name, m, spec, seed, rd_ref=None):
+    """write in one style, read back, compare along the written order. returns True when a violation was reported"""
+    from chython import smiles
+    try:
+        text, order = written(m, spec, seed)
+    except Exception as e:
+        ck.counterexample(f'write-raises:{name}:{spec}', f'format(mol, {spec!r}) raises {type(e).__name__}: {e}', {'molecule': name, 'spec': spec},
+                          type(e).__name__, 'a SMILES string', 'write -> read round trip',
+                          replay_py=f"from chython import smiles; m = smiles({name.split('#')[0]!r}); print(format(m, {spec!r}))")
+        return True
+    ck.case(('rt', name, spec, text), nontrivial=len(m) > 2)
+    ck.count('roundtrip:spec=' + (''.join(sorted(set(spec) & set('aAmhr'))) + ('!s' if '!s' in spec else '') or 'canonical'))
+    replay = (f"from chython import smiles\nt = {text!r}\nprint('written text', t)\nm2 = smiles(t)\n"
+              f"print([(a.atomic_symbol, a.isotope, a.charge, a.is_radical, a.implicit_hydrogens, a.stereo) for _, a in m2.atoms()])\nprint(str(m2))")
+    try:
+        m2 = smiles(text)
+    except Exception as e:
+        kc = known_class(m, spec)
+        key = kc[0] if kc else f'reread-raises:{name}:{spec}'
+        ck.counterexample(key, f'the text written for a molecule cannot be read back ({type(e).__name__}: {e})',
+                          {'molecule': name, 'spec': spec, 'text': text}, f'{type(e).__name__}: {e}', 'the molecule', 'write -> read round trip',
+                          replay_py=replay)
+        return True
+    nums2 = list(m2._atoms)
+    if len(nums2) != len(order):
+        ck.counterexample(f'atom-count:{name}:{spec}', 'the re-read molecule has another number of atoms', {'molecule': name, 'spec': spec, 'text': text},
+                          len(nums2), len(order), 'write -> read round trip', replay_py=replay)
+        return True
+    f = dict(zip(order, nums2))
+    bad = False
+    if 'm' in spec and nums2 != order:
+        ck.counterexample(f'atom-maps:{name}:{spec}', 'atom numbers written as atom maps are not the numbers of the re-read molecule',
+                          {'molecule': name, 'spec': spec, 'text': text}, nums2, order, 'write -> read round trip', replay_py=replay)
+        bad = True
+    diffs = compare_along(m, m2, f, stereo='!s' not in spec)
+    if diffs and 'A' in spec:
+        # DESIGN: aromatic-bond spelling is compared after kekule() on both sides when the direct comparison differs
+        try:
+            ma, mb = m.copy(), m2.copy()
+            ma.kekule()
+            mb.kekule()
+            ma.thiele()
+            mb.thiele()
+            if not compare_along(ma, mb, f, stereo='!s' not in spec):
+                ck.count('roundtrip:equal-after-kekule-thiele')
+                diffs = []
+        except Exception:
+            pass
+    if diffs:
+        ck.counterexample(f'roundtrip:{name}:{spec}', 'write -> read changes the molecule: ' + '; '.join(diffs[:4]),
+                          {'molecule': name, 'spec': spec, 'text': text, 'written_order': order}, diffs[:6], 'identical along the written order',
+                          'direct attribute comparison along smiles_atoms_order; stereo through _translate_*_sign on mapped neighbours',
+                          replay_py=replay)
+        bad = True
+    # RDKit: every spelling of one molecule denotes the same molecule for another toolkit
+    if rd_ref is not None and rd_ref[0] is not None and '!s' not in spec and not bad:
+        from rdkit import Chem
+        rd = Chem.MolFromSmiles(text.split(' ')[0])
+        if rd is not None:
+            flat = Chem.MolToSmiles(rd, isomericSmiles=False)
+            if flat == rd_ref[1]:
+                ck.count('roundtrip:rdkit-compared')
+                iso = Chem.MolToSmiles(rd)
+                if iso != rd_ref[0] and not lost_labels(rd_ref[2], rd):
+                    ck.counterexample(f'rdkit:{name}:{spec}', 'two spellings of one molecule denote different stereoisomers for RDKit',
+                                      {'molecule': name, 'spec': spec, 'text': text, 'canonical': rd_ref[3]}, iso, rd_ref[0],
+                                      'RDKit canonical isomeric SMILES of both spellings', replay_py=replay)
+                    bad = True
+    return bad
+
+
+def lost_labels(rd0, rd1):
+    from rdkit import Chem
+    c0 = len(Chem.FindMolChiralCenters(rd0, useLegacyImplementation=False))
+    c1 = len(Chem.FindMolChiralCenters(rd1, useLegacyImplementation=False))
+    d0 = sum(1 for bd in rd0.GetBonds() if bd.GetStereo() != Chem.BondStereo.STEREONONE)
+    d1 = sum(1 for bd in rd1.GetBonds() if bd.GetStereo() != Chem.BondStereo.STEREONONE)
+    return c1 != c0 or d1 != d0
+
+
+def rd_reference(m):
+    from rdkit import Chem
+    text = str(m).split(' ')[0]
+    rd = Chem.MolFromSmiles(text)
+    if rd is None:
+        return (None, None, None, text)
+    return (Chem.MolToSmiles(rd), Chem.MolToSmiles(rd, isomericSmiles=False), rd, text)
+
+
+ROUND_FLAGS = ['a', 'A', 'm', 'h', 'r']
+
+
+def round_specs(rng, full):
+    combos = [''.join(c) for k in range(len(ROUND_FLAGS) + 1) for c in itertools.combinations(ROUND_FLAGS, k)]
+    if full:
+        return combos + ['!s', 'r!s', 'aAmh!s']
+    return ['', 'a', 'A', 'm', 'h', 'r', 'aAmhr'] + rng.sample(combos, 3) + ['!s'] * (rng.random() < 0.3)
+
+
+def search_roundtrip(ck, mols, n_random, full=False):
+    from rdkit import RDLogger
+    RDLogger.DisableLog('rdApp.*')
+    rng = random.Random(f'{ck.seed}:c02rt')
+    found = 0
+    for i, (name, m) in enumerate(mols):
+        ref = rd_reference(m)
+        specs = round_specs(rng, full or name in SPECIAL_SET)
+        for spec in specs:
+            found += roundtrip(ck, name, m, spec, f'{ck.seed}:{i}:{spec}', ref)
+        for k in range(n_random):
+            spec = 'r' + rng.choice(['', 'a', 'h', 'A', 'm', 'ah'])
+            found += roundtrip(ck, name, m, spec, f'{ck.seed}:{i}:{k}', ref)
+        for f_ in mol_features(m):
+            ck.count('roundtrip:mol-' + f_)
+    return found
+
+
+# ---- injectivity: equal canonical strings only for molecules that are the same under some atom correspondence ----
+
+def iso_exists(a, b, limit=20000):
+    """is there a bijection of atoms preserving element, isotope, charge, radical, H count, bonds with orders and the stereo
+    configuration?  plain backtracking, no canonical numbering.  None = gave up"""
+    if len(a._atoms) != len(b._atoms) or n_labels(a) != n_labels(b):
+        return False
+    key = lambda mol, n: (atom_sig(mol._atoms[n]), len(mol._bonds[n]), mol._atoms[n].stereo is None,
+                          tuple(sorted(int(x) for x in mol._bonds[n].values())))
+    if sorted(key(a, n) for n in a._atoms) != sorted(key(b, n) for n in b._atoms):
+        return False
+    # atoms of a in BFS order (every atom after the first of its component has a mapped neighbour)
+    todo, seen = [], set()
+    for s in a._atoms:
+        if s in seen:
+            continue
+        seen.add(s)
+        q = [s]
+        while q:
+            n = q.pop(0)
+            todo.append(n)
+            for k in a._bonds[n]:
+                if k not in seen:
+                    seen.add(k)
+                    q.append(k)
+    bkeys = {}
+    for n in b._atoms:
+        bkeys.setdefault(key(b, n), []).append(n)
+    tested = [0]
+    f, used = {}, set()
+
+    def rec(i):
+        if i == len(todo):
+            tested[0] += 1
+            if tested[0] > limit:
+                raise TimeoutError
+            return stereo_signs(a, f) == stereo_in(b, f, a)
+        n = todo[i]
+        for c in bkeys[key(a, n)]:
+            if c in used:
+                continue
+            ok = True
+            for k, bd in a._bonds[n].items():
+                if k in f:
+                    bd2 = b._bonds[c].get(f[k])
+                    if bd2 is None or int(bd2) != int(bd):
+                        ok = False
+                        break
+            if not ok:
+                continue
+            f[n] = c
+            used.add(c)
+            if rec(i + 1):
+                return True
+            del f[n]
+            used.discard(c)
+        return False
+    try:
+        return rec(0)
+    except TimeoutError:
+        return None
+
+
+def search_stereoisomers(ck, mols, max_labels):
+    """all stereoisomers (every subset of labels flipped) of sampled molecules: two of them with the same canonical string must be
+    the same molecule under some atom correspondence"""
+    found = 0
+    for name, m in mols:
+        atoms = [n for n, a in m._atoms.items() if a.stereo is not None]
+        bonds = [(n, k) for n, k, bd in m.bonds() if bd.stereo is not None]
+        k = len(atoms) + len(bonds)
+        if not 1 <= k <= max_labels:
+            continue
+        by_string = {}
+        for mask in range(2 ** k):
+            c = m.copy()
+            for j, n in enumerate(atoms):
+                if mask >> j & 1:
+                    c._atoms[n]._stereo = not c._atoms[n]._stereo
+            for j, (n, kk) in enumerate(bonds):
+                if mask >> (len(atoms) + j) & 1:
+                    c._bonds[n][kk]._stereo = not c._bonds[n][kk]._stereo
+            c.flush_cache()
+            by_string.setdefault(str(c), []).append((mask, c))
+        ck.count(f'injectivity:isomer-sets labels={k}')
+        for s, group in by_string.items():
+            first = group[0][1]
+            for mask, c in group[1:]:
+                ck.case(('inj-stereo', name, group[0][0], mask), nontrivial=True)
+                ck.count('injectivity:equal-string-pairs')
+                r = iso_exists(first, c)
+                if r is False:
+                    ck.counterexample(f'collision-stereo:{name}', 'two different stereoisomers receive the same canonical string',
+                                      {'molecule': name, 'labels_flipped_a': group[0][0], 'labels_flipped_b': mask, 'atoms': atoms, 'bonds': bonds},
+                                      s, 'different strings', 'backtracking isomorphism with stereo compared through _translate_*_sign',
+                                      replay_py=f"from chython import smiles\nm = smiles({name.split('#')[0]!r})\nprint(str(m))")
+                    found += 1
+                    break
+        for s, group in by_string.items():
+            for mask, c in group[:1]:
+                ck.case(('inj-isomer', name, mask), nontrivial=True)
+    return found
+
+
+SKELETONS = {
+    2: [[(0, 1)]],
+    3: [[(0, 1), (1, 2)], [(0, 1), (1, 2), (0, 2)]],
+    4: [[(0, 1), (1, 2), (2, 3)], [(0, 1), (0, 2), (0, 3)], [(0, 1), (1, 2), (2, 3), (0, 3)], [(0, 1), (1, 2), (0, 2), (2, 3)],
+        [(0, 1), (1, 2), (2, 3), (0, 3), (0, 2)]],
+    5: [[(0, 1), (1, 2), (2, 3), (3, 4)], [(0, 1), (0, 2), (0, 3), (0, 4)], [(0, 1), (1, 2), (2, 3), (3, 4), (0, 4)],
+        [(0, 1), (1, 2), (2, 3), (1, 4)]],
+}
+DECOR = [('C', 0, None), ('N', 0, None), ('O', 0, None), ('N', 1, None), ('O', -1, None), ('C', 0, 13)]
+
+
+def search_small_graphs(ck, max_atoms, decor):
+    """exhaustive decorated graphs: molecules with the same canonical string must be identical under some atom permutation"""
+    from chython import MoleculeContainer
+    groups = {}
+    n_mols = 0
+    for na in range(1, max_atoms + 1):
+        skels = SKELETONS.get(na, []) if na > 1 else [[]]
+        for sk in skels:
+            for els in itertools.product(decor, repeat=na):
+                for ords in itertools.product((1, 2, 3), repeat=len(sk)):
+                    m = MoleculeContainer()
+                    try:
+                        for i, (sym, chg, iso) in enumerate(els):
+                            m.add_atom(sym, i + 1, charge=chg, **({'isotope': iso} if iso else {}))
+                        for (x, y), o in zip(sk, ords):
+                            m.add_bond(x + 1, y + 1, o)
+                    except Exception:
+                        continue
+                    if any(a.implicit_hydrogens is None for _, a in m.atoms()):
+                        continue
+                    n_mols += 1
+                    groups.setdefault(str(m), []).append(m)
+    found = 0
+    ck.count('injectivity:small-graphs', n_mols)
+    ck.count('injectivity:small-graph-strings', len(groups))
+    for s, ms in groups.items():
+        first = ms[0]
+        sig0 = None
+        for m in ms[1:]:
+            ck.case(('inj-small', s, tuple(atom_sig(a) for _, a in m.atoms()), tuple((n, k, int(bd)) for n, k, bd in m.bonds())), nontrivial=True)
+            nums = list(first._atoms)
+            same = False
+            if len(m._atoms) == len(nums):
+                for perm in itertools.permutations(nums):
+                    f = dict(zip(nums, perm))
+                    if not compare_along(first, m, f, stereo=False):
+                        same = True
+                        break
+            if not same:
+                desc = lambda x: {'atoms': [(n, a.atomic_symbol, a.charge, a.isotope) for n, a in x.atoms()], 'bonds': [(n, k, int(bd)) for n, k, bd in x.bonds()]}
+                ck.counterexample(f'collision-small:{s}', 'two different small molecules receive the same canonical string', {'a': desc(first), 'b': desc(m)},
+                                  s, 'different strings', 'all atom permutations')
+                found += 1
+                break
+    return found
+
+
+def search(ck, mols):
+    quick = ck.tier == 'quick'
+    rng = random.Random(f'{ck.seed}:c02search')
+    sub = mols if not quick else ([x for x in mols if x[0] in SPECIAL_SET] + rng.sample([x for x in mols if x[0] not in SPECIAL_SET], 90))
+    found = search_roundtrip(ck, sub, n_random=2 if quick else 5, full=not quick)
+    stereo_mols = [x for x in mols if sum(n_labels(x[1])) > 0 and '#' not in x[0]]
+    found += search_stereoisomers(ck, stereo_mols if not quick else stereo_mols[:90], max_labels=5 if quick else 8)
+    found += search_small_graphs(ck, 4 if quick else 5, DECOR[:5] if quick else DECOR)
+    # the two recorded defect classes are exercised on every run (they must be reported as long as they exist)
+    known_probes(ck)
+    return found
+
+
+def known_probes(ck):
+    from chython import smiles, MoleculeContainer
+    try:
+        m = smiles('[Si]:1:C:C:C:C:C:1')
+        roundtrip(ck, '[Si]:1:C:C:C:C:C:1', m, '', 0)
+    except Exception:
+        pass
+    m = MoleculeContainer()
+    m.add_atom('C', 10000)
+    m.add_atom('O', 12)
+    m.add_bond(10000, 12, 1)
+    roundtrip(ck, 'api:atom-number-10000', m, 'm', 0)
+    roundtrip(ck, 'api:atom-number-10000', m, '', 0)
+
+
+def directed_search(ck, bad_writer, bad_reader):
+    """a correspondence broke: property-level oracle on and around the disagreeing inputs"""
+    from chython import smiles
+    rng = random.Random(f'{ck.seed}:c02directed')
+    found = 0
+    seen = set()
+    around = []
+    for name, m, spec, text in bad_writer[:25]:
+        if name in seen or not len(m):
+            continue
+        seen.add(name)
+        around.append((name, m))
+        for _ in range(3):
+            try:
+                around.append((name + '#renumbered', corpus.renumber(m, rng)))
+            except Exception:
+                pass
+    # texts on which the tokenizer models disagree: strings that chython itself wrote must still be readable
+    for kind, s in bad_reader[:200]:
+        try:
+            m = smiles(s if kind == 'tokenize' else f'[{s}]')
+        except Exception:
+            continue
+        if m is not None and len(m):
+            around.append((s if kind == 'tokenize' else f'[{s}]', m))
+    found += search_roundtrip(ck, around, n_random=12, full=True)
+    found += search_stereoisomers(ck, [x for x in around if sum(n_labels(x[1])) > 0], max_labels=7)
+    return found
+
+
+def run(ck):
+    ck.trusted += ['translators tools/gen_smiles_tables.py (Python ast: charge_str, organic_set, B C N P S, heap bounds, _format_closure body, '
+                   'replace_dict, charge_dict, character classes of _tokenize, aromatic symbols and atom_re text), tools/gen_elements.py, tools/gen_stereo.py',
+                   'correspondence runner harness/checks/C02.py + harness/coqcases.py + harness/coqmol.py',
+                   'CachedMethods shim harness/boot.py', 'CPython 3.12.1', 'RDKit 2026.3 (search only)']
+    ck.assumptions += [
+        'coq/model/Writer.v is a hand-written restatement of Smiles._smiles / _format_atom / _format_bond / __ct_map / _format_cxsmiles and of '
+        '_tokenize / _atom_parse; the tie is the correspondence of this check (list of written strings, atom order, final text)',
+        'inputs of the model rather than modelled: the weights (_chiral_morgan / atoms_order values are taken from the implementation), CPython set '
+        'iteration order (replaced by the observed written order as tie-break), the stereo registries (stereogenic_* / _stereo_* dictionaries)',
+        'the parser / create_molecule / postprocess_molecule side of the round trip is not modelled here (C03 models the reader): the round trip as a whole '
+        'rests on the search of this check, the theorems cover the token level']
+    ck.extra['rule'] = ('correspondence: special molecules (brackets, radicals, stereo, allenes, cis/trans in chains and rings, multi-component, special bonds), '
+                        'corpus samples and random renumberings x format specs (canonical + 3 rotating of 15; all 15 for special and every 6th molecule); '
+                        'tokenizer: every written text, all strings <= 2 (quick) / 3 characters over 33 SMILES characters, 600 corruptions of written texts; '
+                        'atom_parse: every written bracket body, all element symbols, field grids incl. out-of-range values, random bodies. '
+                        'search: write in each style and random orders -> chython reader -> attribute comparison along the written order, stereo via '
+                        '_translate_*_sign and via RDKit; injectivity on all stereoisomers of sampled molecules and on exhaustive decorated graphs <= 4 (5) atoms. '
+                        'non-trivial = molecule with more than 2 atoms / tokenizer input non-empty / bracket body accepted')
+    proved = common.standard_proof_steps(ck, translators=['smiles_tables', 'elements', 'stereo'])
+    mols = pool(ck)
+    tied_w, bad_w = corr_writer(ck, mols)
+    texts = sorted({t for name, m in mols[:400] for t in (str(m),)})
+    tied_r, bad_r = corr_reader(ck, texts + WRITTEN_TEXTS)
+    found = search(ck, mols)
+    if not (tied_w and tied_r):
+        found += directed_search(ck, bad_w, bad_r)
+    ck.extra['proved'] = proved
+    ck.extra['tied'] = bool(tied_w and tied_r)
+    ck.extra['search_counterexamples'] = found
+
